@@ -17,6 +17,11 @@ SFX = "" if REPO == "/repo" else "-" + _hl.md5(REPO.encode()).hexdigest()[:8]
 COPIA = TARGET + "/cli%s/release/copia" % SFX
 COPIA_DEV = TARGET + "/cli%s/debug/copia" % SFX
 COPIA_VG = TARGET + "/cli-vg%s/release/copia" % SFX
+COPIA_ASAN = TARGET + "/cli-asan%s/x86_64-unknown-linux-gnu/release/copia" % SFX
+# variant stages: the same process-level workload against another build of the same sources
+VARIANT = os.environ.get("VERIF_VARIANT", "")
+if VARIANT == "asan":
+    COPIA = COPIA_ASAN
 VH = TARGET + "/vh%s/release/vh" % SFX
 VH_DEBUG = TARGET + "/vh%s/verif-debug/vh" % SFX
 SHIM = TARGET + "/libfsmon.so"
@@ -87,6 +92,8 @@ class SplitMix:
 def build(*what):
     """(Re)build from the current working tree of $VERIF_REPO. Exit 2 on failure."""
     env = dict(os.environ, VERIF_REPO=REPO, VERIF_TARGET=TARGET, CARGO_NET_OFFLINE="true")
+    if VARIANT == "asan":
+        what = tuple("cli-asan" if w == "cli" else w for w in what)
     r = subprocess.run([V + "/bin/build.sh", *what], env=env, stdout=subprocess.PIPE, stderr=subprocess.PIPE, text=True)
     if r.returncode != 0:
         sys.stderr.write(r.stdout + r.stderr)
@@ -111,6 +118,10 @@ def run_vh(sub, tier, stage=None, profile="release", cases=None, extra=(), sd=No
         cmd += ["--cases", str(cases)]
     cmd += list(extra)
     env = dict(os.environ, COPIA_BIN=COPIA, RUST_BACKTRACE="0")
+    if VARIANT == "asan":
+        env["VH_NO_RLIMIT"] = "1"
+        if os.environ.get("VERIF_ASAN_LOG"):
+            env["ASAN_OPTIONS"] = "log_path=%s:detect_leaks=0:abort_on_error=1:allocator_may_return_null=1:max_allocation_size_mb=4096" % os.environ["VERIF_ASAN_LOG"]
     if env_extra:
         env.update(env_extra)
     try:
@@ -172,6 +183,47 @@ def run_vh_miri(sub, shards=16, cases=3, stage="lib", timeout=1500):
             if bad:
                 bads.append(bad)
     return reps, bads, None
+
+
+def asan_stage(res, pid, timeout=3600):
+    """Thorough tier: the check's quick process-level workload once more against the AddressSanitizer build
+    of the CLI. ASan reports are collected through ASAN_OPTIONS=log_path; any report is a violation."""
+    if VARIANT:
+        return
+    import glob
+    import tempfile
+    out = tempfile.mkdtemp(prefix="asan-%s-" % pid, dir=WORK if os.path.isdir(WORK) else None)
+    logdir = os.path.join(out, "asanlog")
+    os.makedirs(logdir)
+    env = dict(os.environ, VERIF_VARIANT="asan", VERIF_OUT=out, VERIF_WORK=os.path.join(out, "work"), VERIF_ASAN_LOG=os.path.join(logdir, "asan"), VERIF_SEED=str(seed() + 424242))
+    try:
+        r = subprocess.run([V + "/check", pid, "--tier", "quick"], env=env, cwd=V, stdout=subprocess.PIPE, stderr=subprocess.PIPE, timeout=timeout, text=True)
+    except subprocess.TimeoutExpired:
+        res.extra["asan_stage"] = {"skipped": "timeout"}
+        shutil.rmtree(out, ignore_errors=True)
+        return
+    ev = None
+    try:
+        ev = json.load(open(os.path.join(out, "evidence", pid + ".json")))
+    except Exception:
+        pass
+    reports = sorted(glob.glob(os.path.join(logdir, "asan*")))
+    for rp in reports[:20]:
+        txt = open(rp, errors="replace").read()
+        first = [l for l in txt.splitlines() if "ERROR: AddressSanitizer" in l][:1]
+        frames = [l.strip() for l in txt.splitlines() if l.strip().startswith("#") and "copia" in l][:3]
+        kind = first[0].split("AddressSanitizer:")[1].split()[0] if first and "AddressSanitizer:" in first[0] else "report"
+        res.violation("%s|asan|%s" % (pid, kind), {"report_head": txt[:1500], "copia_frames": frames})
+    if r.returncode == 2 and not reports:
+        res.extra["asan_stage"] = {"skipped": "variant run failed: " + (r.stdout + r.stderr)[-300:]}
+    else:
+        cov = (ev or {}).get("coverage", {})
+        res.extra["asan_stage"] = {"evaluations": cov.get("evaluations"), "asan_reports": len(reports), "variant_exit": r.returncode, "variant_violation_signatures": cov.get("violation_signatures"), "build": "nightly -Zsanitizer=address, release profile; RLIMIT_AS and the malloc-logging shim are off in this stage"}
+        # a behavioural violation that shows only in the ASan build is still a violation of the property
+        if r.returncode == 1:
+            for sig, n in (cov.get("violation_signatures") or {}).items():
+                res.violation(sig + "|asan-build", {"count": n, "note": "seen when the quick workload ran against the ASan build"})
+    shutil.rmtree(out, ignore_errors=True)
 
 
 class Result:
@@ -282,6 +334,7 @@ def finish(res, tier):
         "violation_signatures": res.violation_counts,
         "known_findings_seen": kf,
     }
+    cov["copia_binary"] = COPIA + (" (variant: %s)" % VARIANT if VARIANT else "")
     if res.exhaustive is not None:
         cov["exhaustive"] = res.exhaustive
     cov.update(res.extra)
